@@ -3,6 +3,7 @@ package props
 import (
 	"fmt"
 	"go/types"
+	"sort"
 	"strings"
 
 	"golang.org/x/tools/go/ssa"
@@ -323,7 +324,16 @@ func (c *Ctx) matchQosMin() {
 	c.R.Rule("T7-min-idiom", "each QoS-downgrade site computes min(a,b): the comparison direction and the operands' origins are checked (x := a; if x > b { x = b }).")
 	fn := c.P.Func("topics", "snode", "matchQos")
 	if fn == nil {
-		c.R.Unresolved("topics.snode.matchQos")
+		// the collection loop written out where the method was called: every such loop of the match is judged
+		sm := c.P.Func("topics", "snode", "smatch")
+		loops := collectLoops(sm)
+		if sm == nil || len(loops) == 0 {
+			c.R.Unresolved("topics.snode.matchQos")
+			return
+		}
+		for i, l := range loops {
+			c.collectLoopMin(sm, l, fmt.Sprintf("smatch:collect#%d", i+1))
+		}
 		return
 	}
 	// find the append to *qoss: its value must be min(param qos, sn.qos[i]) and the append to *subs must be subs[i] with the same i
@@ -335,6 +345,47 @@ func (c *Ctx) matchQosMin() {
 		c.R.Bad("T7-min-idiom", "matchQos:loop", c.P.Pos(fn.Pos()), "matchQos has no loop over the node's subscribers")
 		return
 	}
+	c.collectLoopMin(fn, l, "matchQos")
+}
+
+// collectLoops: the loops of fn that range over a node's subscriber list and append to a result list handed in
+// through a pointer parameter, in block order.
+func collectLoops(fn *ssa.Function) []*ir.Loop {
+	if fn == nil {
+		return nil
+	}
+	var out []*ir.Loop
+	for _, l := range ir.Loops(fn) {
+		subj := rangeSubject(l)
+		if subj == nil {
+			continue
+		}
+		if p := ir.PathOf(subj); len(p.Fields) == 0 || p.Fields[len(p.Fields)-1] != "subs" {
+			continue
+		}
+		appends := false
+		for b := range l.Blocks {
+			for _, in := range b.Instrs {
+				if st, ok := in.(*ssa.Store); ok {
+					if _, isP := ir.SeeThrough(st.Addr).(*ssa.Parameter); isP {
+						appends = true
+					}
+				}
+				if call, ok := in.(*ssa.Call); ok && pairAppendArgs(call) != nil {
+					appends = true
+				}
+			}
+		}
+		if appends {
+			out = append(out, l)
+		}
+	}
+	sort.Slice(out, func(i, j int) bool { return out[i].Header.Index < out[j].Header.Index })
+	return out
+}
+
+// collectLoopMin: T7 for one collection loop l of fn.
+func (c *Ctx) collectLoopMin(fn *ssa.Function, l *ir.Loop, name string) {
 	var qosParam ssa.Value
 	for _, p := range fn.Params {
 		if p.Type().String() == "byte" || p.Type().String() == "uint8" {
@@ -393,8 +444,8 @@ func (c *Ctx) matchQosMin() {
 			}
 		}
 	}
-	c.R.Check(okMin, "T7-min-idiom", "matchQos:delivery-qos=min(publish,granted)", c.P.Pos(fn.Pos()), "the QoS reported for a subscriber is min(publish QoS, that subscriber's granted QoS)", "the QoS reported for a subscriber is not min(publish QoS, qos[i]) evaluated afresh for each subscriber")
-	c.R.Check(okSub && nApp == 2, "T7-min-idiom", "matchQos:parallel-lists", c.P.Pos(fn.Pos()), "one subscriber and one QoS are appended per element, from the same index", "subscriber list and QoS list are not appended pairwise from the same element")
+	c.R.Check(okMin, "T7-min-idiom", name+":delivery-qos=min(publish,granted)", c.P.Pos(fn.Pos()), "the QoS reported for a subscriber is min(publish QoS, that subscriber's granted QoS)", "the QoS reported for a subscriber is not min(publish QoS, qos[i]) evaluated afresh for each subscriber")
+	c.R.Check(okSub && nApp == 2, "T7-min-idiom", name+":parallel-lists", c.P.Pos(fn.Pos()), "one subscriber and one QoS are appended per element, from the same index", "subscriber list and QoS list are not appended pairwise from the same element")
 }
 
 // isLoopElemOfField: x is field[i] with i the index of loop l's element.
